@@ -91,6 +91,18 @@ fn expressions(tier: Tier) -> Vec<(String, String, &'static str)> {
                     v.push((format!("unOfBin.{l}"), format!("{u_}({a} {o} {b})"), syntax));
                     v.push((format!("unOfBinChain.{l}"), format!("{u_}({a} {o} {b}) {o} {c}"), syntax));
                 }
+                // a parenthesised unary operand inside a chain of two binary operators
+                for o1 in &bins {
+                    for o2 in &bins {
+                        if only_new && *u != "~" && !BIN53.contains(o1) && !BIN53.contains(o2) {
+                            continue;
+                        }
+                        let u_ = sp(u);
+                        v.push((format!("unMid.{l}"), format!("{a} {o1} ({u_}{b}) {o2} {c}"), syntax));
+                        v.push((format!("unFirst.{l}"), format!("({u_}{a}) {o1} {b} {o2} {c}"), syntax));
+                        v.push((format!("unLast.{l}"), format!("{a} {o1} {b} {o2} ({u_}{c})"), syntax));
+                    }
+                }
                 for u2 in &uns {
                     if only_new && *u != "~" && *u2 != "~" {
                         continue;
